@@ -14,7 +14,8 @@ Variable entries : xml -> mentries.
 Variable kids : xml -> list kid.
 Variable mime : bytes -> mtype.
 Variable rdf0 : bytes.
-Variable mask : xml -> xml.
+Variable proj : Type.
+Variable mask : xml -> proj.
 Hypothesis par_ser : forall x, par (ser x) = x.
 Notation container := (container bytes).
 Notation document := (document xml bytes).
@@ -27,8 +28,8 @@ Notation WFd := (WFd xml bytes kid).
 Notation c_get_part := (c_get_part bytes kid FIXED).
 Notation c_load_missing := (c_load_missing bytes kid FIXED).
 Notation d_tree := (d_tree xml bytes kid par FIXED).
-Notation view := (view xml bytes kid par mask).
-Notation file_view := (file_view xml bytes kid par mask).
+Notation view := (view xml bytes kid par proj mask).
+Notation file_view := (file_view xml bytes kid par proj mask).
 
 Lemma live_lookup : forall (c : container) n, NoDup (map fst (parts _ c)) ->
   lookup n (live _ c) = match lookup n (parts _ c) with Some (Some b) => Some b | _ => None end.
